@@ -29,6 +29,9 @@ ITEMS = [
     ("p-xdigit", "pattern", "0x[[:xdigit:]]+"),
     ("p-alnum", "pattern", "[[:alpha:]][[:alnum:]_]*"),
     ("p-notword", "pattern", "\\W\\S\\D"),
+    ("p-uni", "pattern", "\\p{Lu}+x"),
+    ("p-notuni", "pattern", "\\P{Lu}+x"),
+    ("p-uniboth", "pattern", "\\p{Ll}\\P{Ll}\\p{Nd}\\P{Nd}"),
     # failures of every kind, alone and combined: what one failed run leaves behind must not reach the next run
     ("p-syn", "pattern", "(a"),
     ("p-sem-syn", "pattern", "a{4,2}("),
@@ -39,6 +42,9 @@ ITEMS = [
     ("s-synerr", "spec", G % "synerr" + 'start = = "a";\n'),
     ("s-predef", "spec", G % "predef" + 'WS = $SPACE;\nNUM = $NUMBER;\nstart = NUM;\n'),
     ("s-conflict", "spec", ORDER_SENSITIVE["dfa-conflicts"]),
+    # the same TEXT as a string in one specification and as a pattern in another (different languages)
+    ("s-dotstr", "spec", G % "dotstr" + 'start = "." "a.b" "x+" "[ab]";\n'),
+    ("s-dotpat", "spec", G % "dotpat" + 'ANY = /./;\nAB = /a.b/;\nXS = /x+/;\nCL = /[ab]/;\nstart = ANY AB XS CL;\n'),
 ]
 
 
